@@ -28,6 +28,11 @@ ToClient == {"version", "seed", "mux.tag", "mux.len",
              "data.index", "data.count", "data.blk", "data.s2", "data.rem", "data.toklen", "data.tok", "data.ref", "data.end", "data.sum",
              "phase1", "phase2", "stats"}
 Classes == {"zero", "minus-one", "int-min", "plus-one", "minus-one-rel", "huge", "wrong-type", "truncated-here", "garbage"}
+(* the TEXT of a filter rule a client sends: a modifier prefix and a pattern, each possibly empty or degenerate.   *)
+(* The list stays well-formed on the wire; what the rule parser makes of the text is the daemon's problem.       *)
+RulePrefixes == {"- ", "+ ", "", "-", "+", "P ", "! ", "-/ "}
+RulePatterns == {"", "/", "//", "x/", "/x", "*", "[", " ", "x//"}
+RuleClasses == {"rule:" \o p \o "|" \o q : p \in RulePrefixes, q \in RulePatterns}
 Victims == {"daemon-sender", "daemon-receiver", "client"}
 FieldsOf(v) == CASE v = "daemon-sender" -> ToDaemonSender [] v = "daemon-receiver" -> ToDaemonReceiver [] OTHER -> ToClient
 
@@ -44,7 +49,8 @@ vars == <<victim, field, class, field2, class2, display, pc, alive, nextOK>>
 (* what the victim was asked to DISPLAY must not matter either: "progress" = the client runs with --progress, *)
 (* the daemon gets a --progress argument line (its computations on peer-declared sizes then run)            *)
 Displays == {"quiet", "progress"}
-Init == /\ victim \in Victims /\ field \in FieldsOf(victim) /\ class \in Classes
+Init == /\ victim \in Victims /\ field \in FieldsOf(victim)
+        /\ class \in Classes \cup (IF victim = "daemon-sender" /\ field = "filter.rule" THEN RuleClasses ELSE {})
         /\ display \in Displays /\ (display = "progress" => (field2 = NoPair /\ class \in {"zero", "minus-one", "plus-one", "huge", "garbage"}))
         /\ \/ field2 = NoPair /\ class2 = NoPair
            \/ /\ class \in PairClasses /\ class2 \in PairClasses
